@@ -94,6 +94,15 @@ def _rar(cfg, which):
     return d
 
 
+def _dup(tr, cfg):
+    """two stored points with identical bytes: with random sampling an (unlikely) accident of float arithmetic - the trace cannot be
+    decoded and is skipped; with grid sampling the points of a store are distinct by construction, so it is reported"""
+    if cfg.get("method") == "grid":
+        tr["exc"] = "GridPointsNotDistinct: a grid-sampled store holds the same point twice"
+    else:
+        tr["skipped"] = "duplicate floats in store"
+
+
 def _mask(p, n):
     if p is None:
         return [True] * n
@@ -120,7 +129,7 @@ def case_ode(cfg):
     times = _np(g.times)
     reg = Registry(times)
     if reg.dup:
-        tr["skipped"] = "duplicate floats in store"
+        _dup(tr, cfg)
         return tr
     dt = times.dtype.type
     tr["stores"].append(_store(
@@ -205,7 +214,7 @@ def case_statio(cfg):
         st_b, reg_b, _ = _border_store(g, cfg, dim, lo, hi)
         tr["stores"].append(st_b)
     if reg_o.dup or (has_b and reg_b.dup):
-        tr["skipped"] = "duplicate floats in store"
+        _dup(tr, cfg)
         return tr
     for _ in range(cfg["draws"]):
         g, batch = g.get_batch()
@@ -252,7 +261,7 @@ def case_nonstatio(cfg):
         init=reg_t.ids(times), cur0=int(g.curr_time_idx), inDom=[bool(dt(tlo) <= v <= dt(thi)) for v in times],
         shape=list(times.shape), mask=_mask(g.p_times, len(times))))
     if reg_o.dup or reg_t.dup or (has_b and reg_b.dup):
-        tr["skipped"] = "duplicate floats in store"
+        _dup(tr, cfg)
         return tr
     for _ in range(cfg["draws"]):
         g, batch = g.get_batch()
@@ -421,7 +430,7 @@ def case_param(cfg):
         src = tables[k] if k in tables else stored
         regs[k] = Registry(list(src))
         if regs[k].dup:
-            tr["skipped"] = "duplicate floats in store"
+            _dup(tr, cfg)
             return tr
         if k in tables:
             indom = [True] * stored.shape[0]
@@ -509,7 +518,7 @@ def case_solvegen(cfg):
             arr = _np(g.omega_border)
             stores.insert(1, ("border", "omega_border", "curr_omega_border_idx", Registry(list(arr)), cfg["bb"], arr, int(g.curr_omega_border_idx)))
     if any(s[3].dup for s in stores):
-        tr["skipped"] = "duplicate floats in store"
+        _dup(tr, cfg)
         return tr
     for (name, f_store, f_cur, reg, b, arr, cur0) in stores:
         n = arr.shape[0]
